@@ -464,13 +464,16 @@ partial def exec (x : XState) (args : List String) : XState × String :=
     let ents := x.ix.index.map fun p => enc (some p.1) ++ "=" ++ enc (some p.2.1) ++ "@" ++ toString p.2.2
     (x, "label=" ++ lab ++ " idx=[" ++ ",".intercalate ents ++ "]")
   | ["encodedb", n, "short"] =>
+    -- versions n-1 and n, the second one a short-form reference to the first (when version n inherited its root)
     match findVer x.vs.versions n.toNat! with
     | none => (x, "err")
     | some c =>
-      let img := encodeVersionShort H n.toNat! c
-      let txt := "{" ++ " ".intercalate (img.map fun p => hexOf p.1 ++ ":" ++ hexOf p.2) ++ "}"
-      ({ x with vs := { x.vs with versions := [(n.toNat!, c)], working := c, lastSaved := c, base := n.toNat! },
-                opened := true, fastOpen := x.cfgFast, legacyLatest := none, ixValid := false }, "img=" ++ txt)
+      match encodeVersionShort H n.toNat! c with
+      | none => exec x ["encodedb", n]
+      | some img =>
+        let txt := "{" ++ " ".intercalate (img.map fun p => hexOf p.1 ++ ":" ++ hexOf p.2) ++ "}"
+        ({ x with vs := { x.vs with versions := [(n.toNat! - 1, c), (n.toNat!, c)], working := c, lastSaved := c, base := n.toNat! },
+                  opened := true, fastOpen := x.cfgFast, legacyLatest := none, ixValid := false }, "img=" ++ txt)
   | ["encodedb", n] =>
     -- the model writes a database image of version n with its own encoder; from here on the store
     -- holds exactly that version
